@@ -5,6 +5,7 @@ go 1.24.0
 require (
 	github.com/Masterminds/semver/v3 v3.3.0
 	github.com/evanphx/json-patch v5.9.11+incompatible
+	golang.org/x/crypto v0.37.0
 	helm.sh/helm/v4 v4.0.0
 	k8s.io/api v0.32.3
 	k8s.io/apimachinery v0.32.3
@@ -90,7 +91,6 @@ require (
 	github.com/stretchr/testify v1.10.0 // indirect
 	github.com/x448/float16 v0.8.4 // indirect
 	github.com/xlab/treeprint v1.2.0 // indirect
-	golang.org/x/crypto v0.37.0 // indirect
 	golang.org/x/net v0.38.0 // indirect
 	golang.org/x/oauth2 v0.28.0 // indirect
 	golang.org/x/sync v0.13.0 // indirect
